@@ -151,7 +151,7 @@ pub fn run(tier: Tier, seed: u64) -> i32 {
     let mut stats = engine::run_spec(&sp, tier, seed);
     let spf = Spec { id: "C03", rule: RULE, tape_len: 220, cases: tier.pick(24_000, 240_000), gen: gen_family, check: check_family, max_shrink_iters: 2000, shards: 16 };
     stats.merge(engine::run_spec(&spf, tier, seed ^ 0xfa3));
-    let sps = Spec { id: "C03", rule: RULE, tape_len: 700, cases: tier.pick(32, 320), gen: super::family::gen_soak, check: check_soak, max_shrink_iters: 60, shards: 16 };
+    let sps = Spec { id: "C03", rule: RULE, tape_len: 700, cases: tier.pick(32, 96), gen: super::family::gen_soak, check: check_soak, max_shrink_iters: 60, shards: 16 };
     stats.merge(engine::run_spec(&sps, tier, seed ^ 0x50a6));
     engine::run_regressions::<Any>("C03", check_any, &mut stats);
     let extra = super::fuzzrun::maybe_fuzz("C03", "graph_table", tier, seed, &mut stats, serde_json::json!({}));
